@@ -1041,6 +1041,7 @@ func GenSessionProbe(r *rand.Rand, id string) *Case {
 		{Lhs: "L", Rhs: []string{"L", "a"}, Act: Act{Kind: "int", Args: []int{1}, Coefs: []int{1, 1}, Abort: true, AbortEq: k}},
 	}
 	if r.Intn(2) == 0 {
+		// a second list inside the rule: its empty rule is reduced right after another reduction computed a value
 		c.Rules = append(c.Rules, Rule{Lhs: "L", Rhs: []string{"L", "b", "L"}, Act: Act{Kind: "int", Args: []int{1, 3}, Coefs: []int{0, 1, 1}}})
 	}
 	return c
@@ -1084,6 +1085,32 @@ func GenOpts(r *rand.Rand, id string) *Case {
 		t := fmt.Sprintf("t%d", i)
 		c.Tokens = append(c.Tokens, Tok{Name: t})
 		c.Rules = append(c.Rules, Rule{Lhs: l, Rhs: []string{}}, Rule{Lhs: l, Rhs: []string{t}})
+	}
+	return c
+}
+
+// GenTrie: a keyword trie S -> w1 | w2 | ... (words spelled token by token): conflict-free, and almost every one
+// of its 250-400 states is entered by shifting a terminal (large state numbers appear as shift entries).
+func GenTrie(r *rand.Rand, id string) *Case {
+	c := &Case{ID: id, Family: "trie", Start: "S", Types: map[string]string{}}
+	letters := []string{"a", "b", "c", "d", "e", "f"}
+	for _, l := range letters {
+		c.Tokens = append(c.Tokens, Tok{Name: l})
+	}
+	seen := map[string]bool{}
+	target := 170 + r.Intn(60)
+	for len(c.Rules) < target {
+		n := 3 + r.Intn(3)
+		var w []string
+		for i := 0; i < n; i++ {
+			w = append(w, letters[r.Intn(len(letters))])
+		}
+		k := strings.Join(w, "")
+		if seen[k] {
+			continue
+		}
+		seen[k] = true
+		c.Rules = append(c.Rules, Rule{Lhs: "S", Rhs: w})
 	}
 	return c
 }
